@@ -516,6 +516,62 @@ func sweepCases(all bool) []*Case {
 	return out
 }
 
+// faulty reports whether one of the case's scripts injects a fault.
+func (c *Case) faulty() bool { return c.R.Fault || c.W.Fault || c.O.Fault }
+
+// setErr gives every faulty script of the case the named error value.
+func (c *Case) setErr(name string) {
+	if c.R.Fault {
+		c.R.Err = name
+	}
+	if c.W.Fault {
+		c.W.Err = name
+	}
+	if c.O.Fault {
+		c.O.Err = name
+	}
+}
+
+// crossErrValues adds the error VALUE as a dimension of the fault sweep: every swept case with a fault (every
+// codec, both directions, stream and payload faults, every offset) is run again with each value of errNames in
+// place of the harness's sentinel. In the quick tier the JSON/XML/YAML round trips (whose sweep is the longest)
+// take three values per (case, offset), rotating with the position, so that every value meets every kind and
+// every offset class; the byte-stream and text codecs always take them all.
+func crossErrValues(cases []*Case, all bool) []*Case {
+	out := make([]*Case, 0, len(cases)*4)
+	nf := 0
+	for _, c := range cases {
+		out = append(out, c)
+		if !c.faulty() || c.total() > bigContent {
+			continue
+		}
+		nf++
+		names := errNames
+		if !all && c.Codec != "bytestream" && c.Codec != "text" {
+			names = nil
+			for j := 0; j < 3; j++ {
+				names = append(names, errNames[(nf*3+j)%len(errNames)])
+			}
+		}
+		for _, name := range names {
+			cc := *c
+			cc.setErr(name)
+			out = append(out, &cc)
+		}
+	}
+	return out
+}
+
+// drawErrValue gives the faults of a seeded case an error value: the sentinel in one case of four, else one of errNames.
+func drawErrValue(r *rand.Rand, c *Case) {
+	if !c.faulty() {
+		return
+	}
+	if k := r.Intn(len(errNames) + len(errNames)/3 + 1); k < len(errNames) {
+		c.setErr(errNames[k])
+	}
+}
+
 // sweepPar: the number of goroutines that share one codec instance in the concurrent cases.
 const sweepPar = 8
 
@@ -713,7 +769,7 @@ func genCase(r *rand.Rand, allowHuge bool) *Case {
 func triagePending(*Case) bool { return false }
 
 func run(m *mon.M) {
-	sweep := append(sweepCases(!m.Quick()), multiSweep()...)
+	sweep := crossErrValues(append(sweepCases(!m.Quick()), multiSweep()...), !m.Quick())
 	n := 0
 	for i, c := range sweep {
 		if i%m.NShards != m.Shard {
@@ -730,10 +786,14 @@ func run(m *mon.M) {
 	m.Note("sweep_cases", int64(n))
 	m.Note("sweep_cases_total_all_shards", int64(len(sweep))/int64(m.NShards))
 	r := m.Rand("cases")
+	// the error values of the seeded faults: a PRNG stream of its own, so that the cases of parts (b) and (e) are what
+	// they were in everything else
+	re := m.Rand("error-values")
 	total := m.N(40000, 300000)
 	for i := 0; i < total; i++ {
 		// a handful of 64 KiB / 1 MiB contents per shard in the quick tier, about 1 in 50 in the thorough tier
 		c := genCase(r, !m.Quick() || i%400 == 7)
+		drawErrValue(re, c)
 		if triagePending(c) {
 			m.Class("triage-pending/shape-not-run")
 			continue
@@ -747,6 +807,7 @@ func run(m *mon.M) {
 	nm := m.N(4000, 30000)
 	for i := 0; i < nm; i++ {
 		c := genMultiCase(rm)
+		drawErrValue(re, c)
 		m.Begin(c)
 		runCase(m, c)
 	}
